@@ -120,6 +120,7 @@ def rule_b1(ctx):
     for fid in ids:
         body = ctx.body(fid)
         gs = guards(body)
+        traps = mir.trapping_arith_sites(body)
         for b in range(body.n):
             t = body.term(b)
             if not t or body.blocks[b]["cleanup"]:
@@ -130,9 +131,11 @@ def rule_b1(ctx):
                     res.bad(Finding("B1", fid, "Iterator::%s over file numbers" % mir.last_seg(t["func"]["declared"]),
                                     "numbers read from the file are summed with the trapping `+` (panics on overflow in debug builds)", t["sp"]))
                 continue
-            if t["k"] != "assert" or not (t["kind"].startswith("Overflow") or t["kind"] in ("DivisionByZero", "RemainderByZero")):
+            trap = [x for x in traps if x[0] == b]
+            if not trap:
                 continue
             n_asserts += 1
+            t = dict(t, kind=trap[0][1].split(" on ")[0], ops=trap[0][2])
             ops = t["ops"]
             taint = set()
             for o in ops:
